@@ -127,14 +127,14 @@ Qed.
 (* the blend modes of clip.rs as they are in the source now (regenerated on every run) *)
 Lemma clip_modes_now :
   clip_buffer_initial_opaque = true /\ clip_children_mode = BClear /\
-  clip_group_children_mode = BSourceOver /\ clip_group_merge_mode = BXor.
+  clip_group_children_mode = BSourceOver /\ clip_group_merge_mode = BXor /\ clip_mode_flows_unchanged = true.
 Proof. repeat split; reflexivity. Qed.
 
 (* without the Xor hazard the buffer evolves exactly as if every child cleared by its coverage *)
 Lemma no_hazard_is_clear_only : forall kids b, kids_ok kids -> unit_q b ->
   xor_hazard_from kids b = false -> buffer_after clip_children_mode kids b == clear_only kids b.
 Proof.
-  destruct clip_modes_now as (_ & Hc & _ & Hx).
+  destruct clip_modes_now as (_ & Hc & _ & Hx & _).
   intros kids. induction kids as [|[g e] r IH]; intros b Hk Hb H.
   - reflexivity.
   - inversion Hk as [|? ? He Hr']; subst. cbn [snd] in He.
